@@ -777,7 +777,11 @@ impl<'a> Poly<'a> {
         // α in HQZ paper.
         Self::_inv_mod_xn(zr, alpha, &q[..half_up], tmphi);
         // β in HQZ paper.
-        if p[0] == zn.one() && alpha[0] == zn.one() && (half_up - 1) & (half_up - 2) == 0 {
+        if half_up >= 2
+            && p[0] == zn.one()
+            && alpha[0] == zn.one()
+            && (half_up - 1) & (half_up - 2) == 0
+        {
             // Common case: (1+α)(1+β)=1+α+β+αβ where len(α) = 2^k
             Self::_longmul(
                 zr,
